@@ -6,8 +6,9 @@ package lib
 //
 // A history is: ingest a message (real parse + ingest path), then any of {ingest the same message
 // again, a connection arrives (lookup, MarkActive, real Proxy with an unreachable covert), time passes, the sweeper runs}. Time is virtual:
-// advancing it shifts the recorded registration times backwards (the station only ever looks at
-// time.Since(registrationTime)) and moves the model's clock. The detector is modelled from the
+// advancing it shifts every timestamp the station keeps for a registration backwards (the registry's expiry record
+// and the registration's own RegistrationTime; the station only ever looks at time.Since / time.Until
+// of them) and moves the model's clock. The detector is modelled from the
 // announcements ACTUALLY published on the RESP server: each accepted New / Update (re)arms the
 // session of its tag to "moment it was published + timeout_ns", keeping the longer one
 // (sessions.rs: pubsub_add_or_update_session). At every sweep point, a registration the station
@@ -96,6 +97,18 @@ func c10RunHistory(w *c10World, h c10History) (map[string]bool, *c10Viol, error)
 				return nil, err
 			}
 			log = append(log, fmt.Sprintf("t=%v published %v %s (%v)", now, m.GetOperation(), m.GetPhantomIp(), time.Duration(m.GetTimeoutNs())))
+			// "the lifetime it requests is the station's own lifetime for that state (10 minutes when
+			// new, 6 hours once used)" - at whatever point of a history the message is published
+			if op := m.GetOperation(); op == pb.StationOperations_New || op == pb.StationOperations_Update {
+				want, applied := c10NewNs, e.rm.registeredDecoys.timeoutUnused
+				if op == pb.StationOperations_Update {
+					want, applied = c10UpdateNs, e.rm.registeredDecoys.timeoutActive
+				}
+				if m.GetTimeoutNs() != want || m.GetTimeoutNs() != uint64(applied) {
+					return c10V("lifetime:"+op.String(), "%v for phantom %s published at t=%v requests a lifetime of %v; the station's lifetime for a registration in that state is %v (the sweeper applies %v). history: %s",
+						op, m.GetPhantomIp(), now, time.Duration(m.GetTimeoutNs()), time.Duration(want), applied, strings.Join(log, "; ")), nil
+				}
+			}
 			if s.Verdict != "Ok" {
 				continue // the detector drops it (the announce sub-check reports that)
 			}
@@ -144,13 +157,16 @@ func c10RunHistory(w *c10World, h c10History) (map[string]bool, *c10Viol, error)
 					if r.(*DecoyRegistration) == d {
 						w.use(d)
 						cl["history:used"] = true
+						if now > 0 {
+							cl["history:used-after-time-passed"] = true
+						}
 						log = append(log, fmt.Sprintf("t=%v connection on %v", now, d.PhantomIp))
 					}
 				}
 			}
 		case "adv":
 			d := time.Duration(o.DeltaS) * time.Second
-			e.vShiftAll(d)
+			c10Advance(e, d) // every clock of the station: expiry records and the registrations' own
 			now += d
 		case "sweep":
 			e.rm.RemoveOldRegistrations()
@@ -324,9 +340,9 @@ func c10GenHistory(rt *rapid.T) c10History {
 
 // TestVerif_C10_histories: generated messages x generated histories.
 func TestVerif_C10_histories(t *testing.T) {
-	rec := vh.NewRec("C10", "histories", "messages from C07's generator biased towards admission x histories [ingest] + 1-14 operations from {ingest the same message again, connection arrives (lookup, MarkActive, real Proxy with an unreachable covert), advance time by 1 min .. 6 h 2 min, sweep, sweep during which another registration arrives and is validated, configuration reload through OnReload (unchanged / phantom_blocklist changed / other keys changed)} + [sweep], through the real ingest path with the real sendToDetector publishing to the in-process RESP server. The detector's session table is modelled from the announcements actually published (timeout_ns counted from the moment each was published, the longer one kept). At every sweep point a registration the station still hands out must have a live session there (60 s slack): the station never accepts a registration for longer than it asked the detector to forward it. Non-trivial: the history re-delivers a registration that is still tracked, or marks one used. Distinct = (message, history).")
+	rec := vh.NewRec("C10", "histories", "messages from C07's generator biased towards admission x histories [ingest] + 1-14 operations from {ingest the same message again, connection arrives (lookup, MarkActive, real Proxy with an unreachable covert), advance time by 1 min .. 6 h 2 min, sweep, sweep during which another registration arrives and is validated, configuration reload through OnReload (unchanged / phantom_blocklist changed / other keys changed)} + [sweep], through the real ingest path with the real sendToDetector publishing to the in-process RESP server. The detector's session table is modelled from the announcements actually published (timeout_ns counted from the moment each was published, the longer one kept). At every sweep point a registration the station still hands out must have a live session there (60 s slack): the station never accepts a registration for longer than it asked the detector to forward it. Every New / Update published anywhere in a history must request the station's own lifetime for that state (10 min / 6 h = what the sweeper applies), however much time has passed since the registration was made (time moves every timestamp the station keeps, the registration's own RegistrationTime included). Non-trivial: the history re-delivers a registration that is still tracked, or marks one used. Distinct = (message, history).")
 	defer rec.Flush()
-	rec.Require("history:duplicate-ingest", "history:sweep-past-detector-lifetime", "history:used", "history:still-served-and-forwarded", "history:re-ingest-after-expiry", "history:arrival-during-sweep-admitted", "history:reload-same", "history:reload-blocklist", "history:reload-other", "history:reload-with-registrations")
+	rec.Require("history:duplicate-ingest", "history:sweep-past-detector-lifetime", "history:used", "history:used-after-time-passed", "history:still-served-and-forwarded", "history:re-ingest-after-expiry", "history:arrival-during-sweep-admitted", "history:reload-same", "history:reload-blocklist", "history:reload-other", "history:reload-with-registrations")
 	w := c10NewWorld(t, rec)
 	if p := vh.ReplayFile(); p != "" {
 		var h c10History
